@@ -270,18 +270,18 @@ TkCb(tk, e) ==
         pxs  == IF StepNow(tk, e) /\ ~IsPlanCb(e.m) THEN RemoveEach(tk.planx, t3.fired, 1) ELSE tk.planx
         t7   == [t6 EXCEPT !.planv = IF cleared THEN <<>> ELSE PlanAfter(planNow, e.acts, 1),
                            !.planx = IF cleared THEN <<>> ELSE PlanxAfter(pxs, planNow, e.acts, 1),
-                           !.succ = IF cleared THEN {} ELSE FlagsAfter(@, "S", e.sid, e.acts, 1) \ exitClears,
-                           !.fail = IF cleared THEN {} ELSE FlagsAfter(@, "F", e.sid, e.acts, 1) \ exitClears,
-                           !.msucc = IF cleared THEN {} ELSE FlagsAfterM(@, "S", e.sid, e.acts, 1) \ exitClears,       \* (the end of a plan consumes every report)
-                           !.mfail = IF cleared THEN {} ELSE FlagsAfterM(@, "F", e.sid, e.acts, 1) \ exitClears,
-                           !.sawS = @ \cup Targets(e.acts, "S", e.sid),
-                           !.sawF = @ \cup Targets(e.acts, "F", e.sid),
+                           !.succ = IF cleared THEN {} ELSE FlagsAfter(@, "S", e.s, e.acts, 1) \ exitClears,
+                           !.fail = IF cleared THEN {} ELSE FlagsAfter(@, "F", e.s, e.acts, 1) \ exitClears,
+                           !.msucc = IF cleared THEN {} ELSE FlagsAfterM(@, "S", e.s, e.acts, 1) \ exitClears,       \* (the end of a plan consumes every report)
+                           !.mfail = IF cleared THEN {} ELSE FlagsAfterM(@, "F", e.s, e.acts, 1) \ exitClears,
+                           !.sawS = @ \cup Targets(e.acts, "S", e.s),
+                           !.sawF = @ \cup Targets(e.acts, "F", e.s),
                            !.repF = @ \/ (~cont /\ tk.dres = 2),
                            !.dres = IF IsPhase(e.m) /\ e.s # NONE /\ e.s = tk.act0
                                     THEN (IF LastReport(e.acts) # 0 THEN LastReport(e.acts) ELSE IF cont THEN @ ELSE 0)
                                     ELSE 0,
                            !.planExists = @ \/ HasAct(e.acts, "PC") \/ HasAct(e.acts, "PW"),
-                           !.lastreq = ReqAfter(e.req, e.sid, e.acts, 1),
+                           !.lastreq = ReqAfter(e.req, e.s, e.acts, 1),
                            !.lastacts = e.acts]
     IN  CASE e.m = M_ENTER /\ e.s = NONE /\ ~cont  -> [t7 EXCEPT !.rootin = TRUE]
           [] e.m = M_ENTER /\ e.s # NONE /\ ~cont  -> [t7 EXCEPT !.ent = e.s]
@@ -401,10 +401,21 @@ CheckCb(tk, e, tk2) ==
     \cup V(FullObs /\ tk.incall /\ tk.dseq = <<>> /\ tk.dpos = 0 /\ ~IsGuard(e.m) /\ tk.op \notin {"exit", "dtor", "load", "ito", "iwith", "ctor", "enter"}
              => e.req[1] = tk.lastreq[1] /\ e.req[2] = tk.lastreq[2],
            "C02", "a request made earlier is no longer waiting although no processing point was reached since (or a request appeared from nowhere)")
+    \cup V0(IsLife(e.m) /\ ~cont => ~(IsGuard(tk.dm) /\ tk.dpos > 0 /\ tk.dpos < Len(DeclOrder(tk.dm, tk.ds))),
+            "C03", "enter() / exit() / reenter() ran in the middle of a guard's evaluation")
     \cup V(e.ev # 0, "C05", "the callback did not receive the caller's own event object")
     \* (valid whatever the structure of the call: no class is asked twice for the same phase of one cycle)
     \cup V0((IsPhase(e.m) \/ e.m = M_QUERY) => <<e.m, e.s, e.j>> \notin tk.pseen,
             "C05", "the same callback of one class was invoked twice within one update() / react() / query()")
+    \* ---- the request under evaluation names its requester (the class whose callback asked, NONE for the root and for outside calls)
+    \cup V(rstart /\ proc /\ FullObs /\ (~step \/ (HasHead /\ tk2.fired # <<>>)) /\ ExpectedPend(tk, tk2) # NoT
+             /\ e.pend[2] = ExpectedPend(tk, tk2)[2] /\ e.pend[3] = ExpectedPend(tk, tk2)[3]
+             => e.pend[1] = ExpectedPend(tk, tk2)[1],
+           "C06", "the pending transition shown to the guards does not name the requester of that request")
+    \cup V(HasHist /\ rstart /\ proc /\ FullObs /\ (~step \/ (HasHead /\ tk2.fired # <<>>)) /\ ExpectedPend(tk, tk2) # NoT
+             /\ e.pend[2] = ExpectedPend(tk, tk2)[2] /\ e.pend[3] = ExpectedPend(tk, tk2)[3]
+             => e.pend[1] = ExpectedPend(tk, tk2)[1],
+           "C11", "the request under evaluation - recorded in the history when it survives - does not carry the origin of the request that was made")
     \* ---- payload integrity
     \cup V0(e.req[3] # 999 /\ e.cur[3] # 999 /\ e.pend[3] # 999 /\ \A q \in 1 .. Len(e.plan) : e.plan[q][3] # 999,
            "C07", "a payload shown to a callback does not carry the bytes of any payload that was supplied")
@@ -433,10 +444,10 @@ CheckCb(tk, e, tk2) ==
            "C16", "a log record does not correspond to a delivery or action happening at that moment")
     \cup V0(tk.logger => \A q \in 1 .. Len(e.acts) :
              LET a == e.acts[q] IN
-             a.lg = CASE a.k \in {"T", "W"} -> <<<<"t", e.sid, a.a>>>>
-                      [] a.k = "X" -> <<<<"c", e.sid, 0>>>>
-                      [] a.k = "S" -> <<<<"s", Target(a, e.sid), 0>>>>
-                      [] a.k = "F" -> <<<<"s", Target(a, e.sid), 1>>>>
+             a.lg = CASE a.k \in {"T", "W"} -> <<<<"t", e.s, a.a>>>>
+                      [] a.k = "X" -> <<<<"c", e.s, 0>>>>
+                      [] a.k = "S" -> <<<<"s", Target(a, e.s), 0>>>>
+                      [] a.k = "F" -> <<<<"s", Target(a, e.s), 1>>>>
                       [] OTHER -> <<>>,
            "C16", "an action inside a callback did not produce exactly its log record")
     \* ---- tasks that fire are tasks that were appended (with the payload they were appended with)
